@@ -44,6 +44,18 @@ class VEngine(Engine):
                 return h
         return None
 
+    def lazy_arr(self, name):
+        """Array facet of an untyped (poly) symbol whose path got an array type later (e.g. from a callee's contract)."""
+        spec = self.type_spec(name)
+        if not spec or not spec.get("arrspec"):
+            return None
+        nd, shp, dt, ext = spec["arrspec"]
+        try:
+            shape = tuple(self.spec_shape(s) for s in shp)
+        except Undecided:
+            return None
+        return arr_fresh(name + "!a", nd, shape, dt, ext)
+
     def kind_is(self, v, kind):
         key = (v.poly, kind)
         if key not in self.kinds:
@@ -172,20 +184,35 @@ class VEngine(Engine):
         self.covers = []
         self.call_counts = {}
         self.exit_stack = [[]]
+        self.cuts_fired = set()
+        self.hooks_fired = set()
         cx = ctx()
+        cx.make_arr = self.lazy_arr
         cx.types.update(c.types)
         env = {}
         st = State(z3.BoolVal(True), env)
         self.entry_state = st
         is_method = fi.cls is not None and fi.params and fi.params[0] in ("self", "cls")
+        typed_later = []
         for i, p in enumerate(fi.params):
             if i == 0 and is_method:
                 env[p] = Val(ref="self", py=("instance", fi.cls))
+                continue
+            spec = self.type_spec(p)
+            if spec is not None and spec.get("arrspec"):
+                typed_later.append(p)
+                env[p] = Val(poly=p + "!placeholder", ref=p)
                 continue
             v = self.make_typed(p, p)
             if v is None:
                 v = Val(poly=p, ref=p)
             elif v.ref is None and v.num is None and v.boo is None:
+                v.ref = p
+            env[p] = v
+        self.entry_state = State(st.pc, env)
+        for p in typed_later:  # array shapes may mention other parameters
+            v = self.make_typed(p, p)
+            if v.ref is None:
                 v.ref = p
             env[p] = v
         self.entry_state = State(st.pc, dict(env))
@@ -215,7 +242,7 @@ class VEngine(Engine):
             self.covers.append((qual + "::normal-exit-reachable", post.pc))
             for cl in c.ensures:
                 g = self.eval_clause(cl, post, pre=self.entry_state, polarity=1)
-                self.oblige("ensures::" + cl.name, post, g, "ensures", cl.top, cl.props or c.serves, fi.node, cl)
+                self.oblige("ensures::" + cl.name, post, g, "ensures", cl.top, cl.props, fi.node, cl)
             if c.modifies is not None and c.check_frame:
                 self.check_frame(c, fi, post)
         # exceptional exits
@@ -266,14 +293,14 @@ class VEngine(Engine):
                     goal = self.val_equal(v, e0)
                 finally:
                     self.spec = old
-            self.oblige("frame::%s" % k, post, goal, "frame", False, c.serves, fi.node)
+            self.oblige("frame::%s" % k, post, goal, "frame", False, (), fi.node)
 
     def check_raises(self, c, fi, raises):
         for i, x in enumerate(raises):
             allowed = [rs for rs in c.raises if exc_matches(x.exc, rs.exc) or exc_matches(rs.exc, x.exc) and x.exc in ("Exception",)]
-            name = "raise::%s@%s" % (x.exc, (x.where or "?").split(":")[-1])
+            name = "raise::%s@%s" % (x.exc, getattr(x, "tag", None) or (x.where or "?").split(":")[-1])
             if not allowed:
-                self.oblige("no-" + name, x.st, z3.BoolVal(False), "raises", True, c.serves, fi.node)
+                self.oblige("no-" + name, x.st, z3.BoolVal(False), "raises", True, ("C10", "C09"), fi.node)
                 continue
             conds = []
             for rs in allowed:
@@ -281,18 +308,20 @@ class VEngine(Engine):
                     conds.append(self.truth(self.ev_spec(rs.when, x.st, pre=self.entry_state, polarity=1)))
                 else:
                     conds.append(z3.BoolVal(True))
-            self.oblige(name + "::allowed", x.st, z3.Or(*conds), "raises", False, c.serves, fi.node)
+            self.oblige(name + "::allowed", x.st, z3.Or(*conds), "raises", False, ("C10", "C09"), fi.node)
             for rs in allowed:
                 for cl in rs.ensures:
                     g = self.eval_clause(cl, x.st, pre=self.entry_state, polarity=1)
                     w = self.truth(self.ev_spec(rs.when, x.st, pre=self.entry_state, polarity=-1)) if rs.when is not None else z3.BoolVal(True)
-                    self.oblige("%s::%s" % (name, cl.name), x.st, z3.Implies(w, g), "raises", cl.top, cl.props or c.serves, fi.node, cl)
+                    self.oblige("%s::%s" % (name, cl.name), x.st, z3.Implies(w, g), "raises", cl.top, cl.props or ("C10",), fi.node, cl)
             for cl in c.exc_ensures:
                 g = self.eval_clause(cl, x.st, pre=self.entry_state, polarity=1)
-                self.oblige("%s::%s" % (name, cl.name), x.st, g, "raises", cl.top, cl.props or c.serves, fi.node, cl)
+                self.oblige("%s::%s" % (name, cl.name), x.st, g, "raises", cl.top, cl.props or ("C10",), fi.node, cl)
 
 
 def verify_function(index, registry, qual, models=None):
+    if models is None:
+        from contracts.models import MODELS as models
     cx = set_ctx(Ctx())
     eng = VEngine(index, registry, models)
     t0 = time.time()
